@@ -24,7 +24,7 @@ pub fn property() -> Property {
             "a peer may legitimately address the sibling stream or leave its byte stream inside an unfinished frame: the sibling oracle applies only when the hostile bytes end on a frame boundary and do not address the sibling",
             "server sessions in Lab-M have no dial handler attached (streams surface to the harness), so fuzzed destinations never reach a socket",
         ],
-        families: vec![(Box::new(SessFam), 40_000, 320_000), (Box::new(ParseFam), 40_000, 320_000), (Box::new(HttpFam), 400, 3_000), (Box::new(ServerTunnelFam), 300, 3_000)],
+        families: vec![(Box::new(SessFam), 40_000, 2_000_000), (Box::new(ParseFam), 200_000, 4_000_000), (Box::new(HttpFam), 400, 6_000), (Box::new(ServerTunnelFam), 300, 6_000)],
     }
 }
 
